@@ -878,7 +878,7 @@ func (t *tr) switchStmt(x *ast.SwitchStmt) string {
 		}
 	}
 	pos := t.fset.Position(x.Pos())
-	h := fmt.Sprintf("/-- %s:%d the `switch %s` of `%s` (arms in source order; `sw_run` carries `fallthrough`) -/\n", filepath.Base(pos.Filename), pos.Line, src(t.fset, x.Tag), t.curFn)
+	h := fmt.Sprintf("/-- %s: the `switch %s` of `%s` (arms in source order; `sw_run` carries `fallthrough`) -/\n", filepath.Base(pos.Filename), src(t.fset, x.Tag), t.curFn)
 	h += fmt.Sprintf("def %s (sw_tag : %s) %s : %s :=\n", hname, tagTy.lean(), strings.Join(decls, " "), strings.Join(rtys, " × "))
 	saved := t.indent
 	t.indent = 1
@@ -981,7 +981,7 @@ func (t *tr) function(fd *ast.FuncDecl) string {
 		}
 	}
 	pos := t.fset.Position(fd.Pos())
-	out := fmt.Sprintf("/-- %s:%d `%s` -/\n", filepath.Base(pos.Filename), pos.Line, src(t.fset, fd.Type))
+	out := fmt.Sprintf("/-- %s `%s%s` -/\n", filepath.Base(pos.Filename), t.curFn, strings.TrimPrefix(src(t.fset, fd.Type), "func"))
 	out += fmt.Sprintf("def %s %s : %s :=\n", leanName(defName), strings.Join(decls, " "), strings.Join(resTys, " × "))
 	t.indent = 1
 	out += pre + t.stmts(fd.Body.List, func() string { return tuple(resNames) }, resNames)
@@ -1161,7 +1161,7 @@ func (t *tr) segment(fd *ast.FuncDecl, sg Segment) string {
 		tail = func() string { return tuple(outs) }
 	}
 	pos := t.fset.Position(seg[0].Pos())
-	out := fmt.Sprintf("/-- %s:%d-%d segment of `%s`: `%s` … `%s` -/\n", filepath.Base(pos.Filename), pos.Line, t.fset.Position(hi).Line, fd.Name.Name, sg.First, sg.Last)
+	out := fmt.Sprintf("/-- %s: segment of `%s`: `%s` … `%s` -/\n", filepath.Base(pos.Filename), fd.Name.Name, sg.First, sg.Last)
 	out += fmt.Sprintf("def %s %s : %s :=\n", leanName(sg.Name), strings.Join(decls, " "), resTy)
 	t.indent = 1
 	out += t.stmts(seg, tail, nil)
@@ -1261,12 +1261,12 @@ func main() {
 			case constant.Int:
 				y, ok := t.tyOf(c.Type())
 				if ok && y.kind == "bv" {
-					fmt.Fprintf(&body, "/-- %s:%d `%s %s` -/\ndef %s : %s := %s\n", filepath.Base(pos.Filename), pos.Line, n, c.Type(), leanName(n), y.lean(), lit(c.Val(), y.w))
+					fmt.Fprintf(&body, "/-- %s `%s %s` -/\ndef %s : %s := %s\n", filepath.Base(pos.Filename), n, c.Type(), leanName(n), y.lean(), lit(c.Val(), y.w))
 				}
 				fmt.Fprintf(&body, "def %s_int : Int := %s\n\n", leanName(n), intLit(c.Val()))
 				table = append(table, fmt.Sprintf("(%q, %s)", n, intLit(c.Val())))
 			case constant.String:
-				fmt.Fprintf(&body, "/-- %s:%d -/\ndef %s_str : String := %s\n\n", filepath.Base(pos.Filename), pos.Line, leanName(n), leanStr(constant.StringVal(c.Val())))
+				fmt.Fprintf(&body, "/-- %s -/\ndef %s_str : String := %s\n\n", filepath.Base(pos.Filename), leanName(n), leanStr(constant.StringVal(c.Val())))
 			default:
 				allErrs = append(allErrs, fmt.Sprintf("%s: constant %s of kind %v", m.Lean, n, c.Val().Kind()))
 			}
